@@ -1,0 +1,63 @@
+//go:build verif
+
+// Contracts for package durablestream (the ebu store), checked by
+// /verif/engine (ebuverify).  Comments only: with the build tag off this file
+// does not exist.
+package durablestream
+
+// ---------------------------------------------------------------- assumed: the durable-streams client
+// (github.com/ahimsalabs/durable-streams-go; HTTP and the server are outside)
+//@ ghost readerFrom(Int) String
+//@ func durablestream.(*Client).Reader(client, path, offset)
+//@   trusted
+//@   effect pure
+//@   ensures result != nil && readerFrom(result) == offset
+//@ func durablestream.(*Reader).Read(reader, ctx)
+//@   trusted
+//@   effect pure
+//@   ensures err == nil ==> result0 != nil
+//@ func durablestream.(*Client).Writer(client, ctx, path)
+//@   trusted
+//@   effect pure
+//@   ensures err == nil ==> result0 != nil
+//@ func durablestream.(*StreamWriter).SendJSON(w, v, opts)
+//@   trusted
+//@   effect pure
+//@ func durablestream.(*StreamWriter).Offset(w)
+//@   trusted
+//@   effect pure
+//@ method Logger.Printf(l, format, args)
+//@   effect reentrant
+
+//@ immutable {C10,C03} Store.client Store.path Store.cfg config.logger config.httpClient config.timeout config.contentType
+//@ initwriter WithHTTPClient$1 WithTimeout$1 WithContentType$1 WithLogger$1 defaultConfig NewWithContext
+
+//@ event readerCall := call (*Client).Reader
+//@ event chunkRead := call (*Reader).Read
+//@ event sendCall := call (*StreamWriter).SendJSON
+//@ event writerCall := call (*Client).Writer
+
+// ---------------------------------------------------------------- Append
+//@ def RFC3339NANO() "2006-01-02T15:04:05.999999999Z07:00"
+//@ func (*Store).Append
+//@   props C10 C09
+//@   requires s != nil && ctx != nil && event != nil && s.client != nil
+//@   ensures [C10.ds.append.send] lastresi(writerCall, 1, Iface) == nil ==> cnt(sendCall) == 1
+//@   ensures [C10.ds.append.fail] lastresi(writerCall, 1, Iface) != nil || (cnt(sendCall) == 1 && lastres(sendCall, Iface) != nil) ==> err != nil && result0 == ""
+//@   at call:(*StreamWriter).SendJSON assert [C10.ds.append.fields] writeEvent.Type == event.Type && writeEvent.Data == event.Data &&
+//@        (timeIsZero(event.Timestamp) ==> writeEvent.Timestamp == "") &&
+//@        (!timeIsZero(event.Timestamp) ==> writeEvent.Timestamp == timeFormat(event.Timestamp, RFC3339NANO()))
+
+// ---------------------------------------------------------------- Read
+// The next offset a Read returns is where the following Read starts.  It may
+// only be the chunk's NextOffset if every event of the chunk was handed out.
+//@ func (*Store).Read
+//@   props C10 C11
+//@   requires s != nil && ctx != nil && s.client != nil && s.cfg != nil
+//@   loop 1 invariant [idx] rangeindex < len(rawEvents) && -1 <= rangeindex
+//@   loop 1 owned events
+//@   loop 1 invariant [C10.ds.read.count] len(events) <= rangeindex + 1 && (limit > 0 ==> len(events) < limit)
+//@   ensures [C10.ds.read.from] cnt(readerCall) == 1 && lastarg(readerCall, 2, String) == from
+//@   ensures [C10.ds.read.err] lastresi(chunkRead, 1, Iface) != nil ==> err != nil && result1 == from && len(result0) == 0
+//@   ensures [C10.ds.read.limit] err == nil && limit > 0 ==> len(result0) <= limit
+//@   ensures [C10.ds.read.nogap] {C10,C11} err == nil && len(result0) > 0 && result1 == result.NextOffset ==> rangeindex__1 + 1 >= len(rawEvents)
